@@ -14,6 +14,7 @@
      F4e  (SPARQL route) translatePath does not translate ^iri inside !(..), and !() raises *)
 From Coq Require Import Permutation.
 From RV Require Import Paths.Model Paths.Basics Paths.Eval Paths.Spec Paths.Main Paths.Order Paths.TransModel Paths.TransProofs.
+From RV Require Import Paths.BgpModel Paths.BgpProofs.
 
 (* Soundness and completeness for each of the four bound/unbound combinations of
    the ends, every graph, every bound term (in the graph or not, truthy or not)
@@ -276,6 +277,49 @@ Theorem C11_same_variable_reading : forall c l,
   forall x y, In (x, y) l <-> x = y /\ path_rel (c_g c) (c_path c) x x /\ In x (nodes (c_g c)).
 Proof. exact spec_ok_same_reading. Qed.
 Print Assumptions C11_same_variable_reading.
+
+(* evaluate.evalBGP on a basic graph pattern whose triple patterns have IRI or path
+   predicates ([bgp_eval]: patterns in the order given, the bindings made so far - starting
+   from the initial bindings - substituted into the ends of the next pattern, AlreadyBound
+   skips the solution).  Exact reading for the given order: the solutions are the bindings
+   built pattern by pattern from pairs of the pattern's relation restricted by the current
+   bindings ([sat]); no path may have an inverse member in a negated set (F4c). *)
+Theorem C11_bgp_in_order_partial : forall g ps, Forall okpat ps -> forall b,
+  exists l, bgp_eval g (fuel g) b ps = Ok l /\ forall mu, In mu l <-> sat g b ps mu.
+Proof. exact bgp_eval_sat. Qed.
+Print Assumptions C11_bgp_in_order_partial.
+
+(* every solution extends the initial bindings and satisfies every pattern (join soundness; no hypothesis on the terms) *)
+Theorem C11_bgp_join_sound : forall g ps b mu,
+  sat g b ps mu -> agree b mu /\ Forall (pat_ok g mu) ps.
+Proof. exact sat_sound. Qed.
+Print Assumptions C11_bgp_join_sound.
+
+(* The join, for every order of the patterns: when the initial bindings and the constant
+   ends are nodes of the graph, evaluating the patterns in ANY order ps' succeeds, every
+   solution satisfies every pattern with its section 18.4 relation, and every binding
+   over graph nodes that satisfies all patterns is found.  [_partial]: F4c, the node
+   hypothesis (see C11_bgp_order_refuted), and solutions are matched up to [agree]. *)
+Theorem C11_bgp_with_paths_partial : forall g ps ps' b,
+  Permutation ps ps' -> Forall okpat ps -> vals_nodes g b -> Forall (consts_nodes g) ps ->
+  exists l, bgp_eval g (fuel g) b ps' = Ok l
+    /\ (forall mu, In mu l -> agree b mu /\ Forall (pat_ok g mu) ps)
+    /\ (forall mu, agree b mu -> Forall (pat_ok g mu) ps -> vals_nodes g mu ->
+          exists mu', In mu' l /\ agree mu' mu).
+Proof. exact bgp_with_paths. Qed.
+Print Assumptions C11_bgp_with_paths_partial.
+
+(* without the node hypothesis the order matters: a constant outside the graph reaches a
+   closure with two variable ends through a zero-length match only if its pattern comes
+   first (rdflib's reorderTriples does put it first: replayed, answer x = y = c) *)
+Theorem C11_bgp_order_refuted :
+  let g : graph := [(1, 3, 2)]%N in
+  let p1 : tpat := (EC 12%N, Mul (Iri 4%N) ZeroOrMore, EV 1%N) in
+  let p2 : tpat := (EV 1%N, Mul (Iri 3%N) ZeroOrMore, EV 2%N) in
+  bgp_eval g (fuel g) [] [p1; p2] = Ok [[(2, 12); (1, 12)]%N]
+  /\ bgp_eval g (fuel g) [] [p2; p1] = Ok [].
+Proof. exact sat_order_refuted. Qed.
+Print Assumptions C11_bgp_order_refuted.
 
 (* non-vacuity: a nested closure over a graph with a 2-cycle, a self-loop and a
    falsy literal end point is inside the scope of the theorems; from a start on
